@@ -227,19 +227,21 @@ class Iter(AVal):
     kind: 'slice' (remaining Int, elem AVal, src), 'range' (start Int, end Int), 'opaque'
     Adaptors take/skip are folded into `remaining` at construction."""
     kind = "iter"
-    __slots__ = ("ikind", "remaining", "elem", "start", "end", "extra")
+    __slots__ = ("ikind", "remaining", "elem", "start", "end", "extra", "cells", "pos")
 
-    def __init__(self, ikind, remaining=None, elem=None, start=None, end=None, extra=None):
+    def __init__(self, ikind, remaining=None, elem=None, start=None, end=None, extra=None, cells=None, pos=None):
         self.ikind = ikind
         self.remaining = remaining
         self.elem = elem
         self.start = start
         self.end = end
         self.extra = extra
+        self.cells = cells if cells else None      # known elements by absolute index (slice iterators)
+        self.pos = pos if cells else None          # absolute index of the next element, when known
 
     def __eq__(self, o):
         return (isinstance(o, Iter) and self.ikind == o.ikind and self.remaining == o.remaining and self.elem == o.elem
-                and self.start == o.start and self.end == o.end and self.extra == o.extra)
+                and self.start == o.start and self.end == o.end and self.extra == o.extra and self.pos == o.pos and self.cells == o.cells)
 
     def __hash__(self):
         return hash((self.ikind, self.remaining, self.start, self.end))
@@ -347,8 +349,9 @@ def join_val(a, b, depth=0):
             if x is None or y is None:
                 return None
             return join_val(x, y, depth + 1)
+        keep = a.pos is not None and a.pos == b.pos and a.cells == b.cells
         return Iter(a.ikind, j(a.remaining, b.remaining), j(a.elem, b.elem), j(a.start, b.start), j(a.end, b.end),
-                    a.extra if a.extra == b.extra else None)
+                    a.extra if a.extra == b.extra else None, a.cells if keep else None, a.pos if keep else None)
     if isinstance(a, Closure) and isinstance(b, Closure) and a.def_path == b.def_path and len(a.captures) == len(b.captures):
         return Closure(a.def_path, [join_val(x, y, depth + 1) for x, y in zip(a.captures, b.captures)], a.env)
     if isinstance(a, FnItem) and isinstance(b, FnItem) and a == b:
@@ -399,8 +402,9 @@ def widen_val(old, new, thresholds):
             if x is None or y is None:
                 return None
             return widen_val(x, y, thresholds)
+        keep = old.pos is not None and old.pos == new.pos and old.cells == new.cells
         return Iter(old.ikind, w(old.remaining, new.remaining), w(old.elem, new.elem), w(old.start, new.start), w(old.end, new.end),
-                    old.extra if old.extra == new.extra else None)
+                    old.extra if old.extra == new.extra else None, old.cells if keep else None, old.pos if keep else None)
     return join_val(old, new)
 
 
@@ -453,6 +457,8 @@ def leq_val(a, b):
             if x is None:
                 return False
             return leq_val(x, y)
+        if b.pos is not None and (a.pos != b.pos or a.cells != b.cells):
+            return False
         return l(a.remaining, b.remaining) and l(a.elem, b.elem) and l(a.start, b.start) and l(a.end, b.end)
     if isinstance(a, Closure) and isinstance(b, Closure):
         return a.def_path == b.def_path and len(a.captures) == len(b.captures) and all(leq_val(x, y) for x, y in zip(a.captures, b.captures))
